@@ -32,8 +32,12 @@ construct: `false` = the blind `a->state = DSH_RCMD` of the pinned source (defec
 repair (`if (a->state == DSH_CANCELED) result = DSH_CANCELED; else a->state = DSH_RCMD;` under thd_mutex, then
 `if (result == DSH_CANCELED) goto out;`): the worker goes through `skipL` straight to its epilogue.
 
-Outside the model (see Props/C20.lean): -k, `pthread_create` failure, the watchdog, `rcmd_create`
-failure, everything after `exit()` was called, pthread_cancel being deferred in reality.
+A read loop may be given up at any moment (`W.lockTF`: command time-out noticed through the watchdog's SIGALRM or by
+the worker itself, or a transport error): the result written under thd_mutex is then DSH_FAILED.  The watchdog
+(repaired shutdown) takes part with its lock / signal / unlock of thd_mutex; *when* a deadline passes is C07's model.
+
+Outside the model (see Props/C20.lean): -k, `pthread_create` failure, `rcmd_create` failure, everything after `exit()`
+was called.
 
 The *same* `step` is used by the theorems (Props/C20.lean) and, compiled, as the trace acceptor of
 the `sig` engine (Driver/SigDrv.lean).
@@ -80,6 +84,9 @@ inductive SPC
   | intT2         -- first interrupt: notice printed; next `last_intr = time(NULL)`
   | listLock      -- `_list_slowthreads`: next lock(thd_mutex)
   | listing (k : Nat)   -- holds thd_mutex, `k` calls of time() (one per listed host) to go
+  | printing (k : Nat)  -- thd_mutex released with `k + 1` calls of time() still to go: the listing is printed from a
+                        --   snapshot taken under the mutex (both disciplines are accepted: print while locked = unlock
+                        --   at `listing 0`; copy, unlock, print = unlock at `listing l.length`; and every mixture)
   | abLock        -- abort (batch, or second ^C): `_fwd_signal(SIGINT)`: next lock(thd_mutex)
   | fwding (k : Nat)    -- holds thd_mutex, slots < k scanned
   | exiting       -- next: errx → exit(1)
@@ -143,6 +150,8 @@ deriving DecidableEq, Repr
 
 inductive WAct
   | lockT | time | unlockT | connectBegin | connectEnd (ok : Bool) | destroyBegin | destroyEnd | lock | signal | unlock
+  | lockTF    -- lock(thd_mutex) at the end of a read loop that was given up: the command timed out (the watchdog's
+              --   SIGALRM, or the worker's own test) or the transport failed: `state = result` writes DSH_FAILED
 deriving DecidableEq, Repr
 
 inductive SAct
@@ -274,6 +283,7 @@ def wNext (g : Bool) (a : WAct) (p : WP) (canceled : Bool) : Option WP :=
   | .lockT, .connFail => some .resL
   | .lockT, .reading => some .resL
   | .lockT, .closing => some .resL
+  | .lockTF, .reading => some .resL
   | .time, .updT => some .updL
   | .unlockT, .rcmdL => some .ready
   | .unlockT, .skipL => some .torn                              -- `goto out`
@@ -295,17 +305,24 @@ def wWrite (g : Bool) (a : WAct) (p : WP) (t : TS) : TS :=
   | .lockT, .connFail => .failed                                -- `a->state = result`
   | .lockT, .reading => .done
   | .lockT, .closing => .done                                   -- result is DSH_DONE for a canceled host too
+  | .lockTF, .reading => .failed                                -- the command was given up (time-out, read error)
   | .time, .updT => if t = .canceled then .canceled else .reading   -- `_update_connect_state`
   | _, _ => t
 
 /-- what a worker operation does to the shared protocol objects -/
 def wEffect (i : Nat) (s : St) : WAct → St
   | .lockT => { s with thd := .w i }
+  | .lockTF => { s with thd := .w i }
   | .unlockT => { s with thd := .none }
   | .lock => { s with own := .w i, tc := s.tc - 1 }                    -- lock; threadcount--
   | .signal => { s with sig := s.sig || s.dpc.isParked }               -- lost when nobody is parked
   | .unlock => { s with own := .none }
   | _ => s
+
+/-- the operation acquires thd_mutex -/
+def WAct.locksT : WAct → Bool
+  | .lockT | .lockTF => true
+  | _ => false
 
 def wStep (s : St) (i : Nat) (a : WAct) : Option St :=
   match s.ws[i]? with
@@ -314,7 +331,7 @@ def wStep (s : St) (i : Nat) (a : WAct) : Option St :=
     match wNext s.g a p (tsAt s i == .canceled) with
     | none => none
     | some q =>
-      if (a = .lockT → s.thd = .none) ∧ (a = .lock → s.own = .none) then
+      if (a.locksT = true → s.thd = .none) ∧ (a = .lock → s.own = .none) then
         some (wEffect i { s with ws := s.ws.set i q, ts := s.ts.set i (wWrite s.g a p (tsAt s i)) } a)
       else none
 
@@ -334,6 +351,8 @@ def sStep (s : St) : SAct → Option St
         | .intT => some { s with spc := if s.now - s.last > INTR then .intT2 else .abLock }
         | .intT2 => some { s with last := s.now, spc := .listLock }
         | .listing (k + 1) => some { s with spc := .listing k }
+        | .printing (k + 1) => some { s with spc := .printing k }
+        | .printing 0 => some { s with spc := .waiting }
         | .tstpT => some { s with spc := if s.now - s.last > INTR then .stopping else .cancLock }
         | _ => none
       else none
@@ -351,6 +370,7 @@ def sStep (s : St) : SAct → Option St
       | _ => none
   | .unlockT => match s.spc with
       | .listing 0 => some { s with thd := .none, spc := .waiting }
+      | .listing (k + 1) => some { s with thd := .none, spc := .printing k }
       | .fwding k => if noReading s.ts k s.ts.length then some { s with thd := .none, spc := .exiting } else none
       | _ => none
   | .lock => match s.own, s.spc with
@@ -426,7 +446,7 @@ def dActs (s : St) : List DAct :=
    .cancelS, .ret]
 def wActs : List WAct :=
   [.lockT, .time, .unlockT, .connectBegin, .connectEnd true, .connectEnd false, .destroyBegin, .destroyEnd, .lock,
-   .signal, .unlock]
+   .signal, .unlock, .lockTF]
 def sActs (s : St) : List SAct :=
   [.sigwait .int, .sigwait .tstp, .time s.now, .lockT, .unlockT, .lock, .unlock, .stop, .exit 1, .die] ++
   (List.range s.ts.length).map .fwd
